@@ -281,7 +281,9 @@ class C05(Oracle):
             pay = energy * price
             if abs(float(ch["price"]) - pay) > 1e-9 * max(1.0, abs(pay)):
                 out.append(V("C05", "payment_vs_tariff", k, f"vehicle {vid} paid {ch['price']!r} for {energy!r} at tariff {price!r} on {sid}/{cid}"))
-            if price > 0:
+            if price < 0 and energy > 0:
+                ctx.run.probes["payment_at_negative_tariff"] += 1
+            if price != 0:
                 self.priced += 1
                 if prev.stations.get(sid) is not None and cid in prev.stations[sid].state and prev.stations[sid].state[cid].price_per_kwh != price:
                     ctx.run.probes["price_changed_during_session"] += 1
@@ -382,6 +384,10 @@ class C18(Oracle):
                 elif a1 == "ChargeQueueing" and (v1.vehicle_state.station_id, v1.vehicle_state.charger_id) == key:
                     waiting.append(vid)
             self.served_from_queue += len(served)
+            if len(served) >= 2:
+                ctx.run.probes["several_served_from_one_queue_in_one_step"] += 1
+                if waiting:
+                    ctx.run.probes["several_served_in_one_step_and_others_left_waiting"] += 1
             if served and waiting:
                 self.contended += 1
                 ctx.run.probes["queue_partially_served"] += 1
